@@ -135,7 +135,7 @@ package cache
 
 // the refresh itself: runs the rest of the chain once on the copy, stores the answer under the same
 // key, and releases the single-flight key only when all of that is over (deferred Forget).
-//@ func (c *Cache) doLazyUpdate$1 [C05]
+//@ func (c *Cache) doLazyUpdate$lazyUpdateFunc [C05]
 //@   requires wfK(next.chain, next.p, next.jumpBack) && respWF(qCtxCopy)
 //@   requires c != nil && qCtxCopy != nil && qCtxCopy.query != nil && c.logger != nil && c.backend != nil && c.args != nil && c.args.LazyCacheTTL <= 9223372036
 //@   modifies *
@@ -184,7 +184,7 @@ package cache
 //@   ensures x != nil ==> result == x.Entries
 //@   ensures x == nil ==> len(result) == 0
 
-//@ func paramfn:writeDump$2.writeBlock
+//@ func paramfn:writeDump$rangeFunc.writeBlock
 //@   log writeBlock
 //@   modifies *
 
@@ -193,7 +193,7 @@ package cache
 // the per-entry function of writeDump: an entry whose cache expiry is before `now` is skipped;
 // otherwise exactly one CachedEntry is appended to the current block, with ALL five fields taken
 // from the cache entry: key, packed message, cache expiry, message expiry and stored time.
-//@ func (c *Cache) writeDump$2 [C19, C10]
+//@ func (c *Cache) writeDump$rangeFunc [C19, C10]
 //@   requires v != nil && block != nil
 //@   modifies *
 //@   ensures[C10] calls(msgPack) == 1 ==> atcall(msgPack, 0, v.resp == old(v.resp) && (forall s range 3, i int :: inSec(v.resp, s, i) ==> sec(v.resp, s)[i] == old(sec(v.resp, s)[i]) && hdrAt(v.resp, s, i).Ttl == old(hdrAt(v.resp, s, i).Ttl)))
@@ -211,7 +211,7 @@ package cache
 // every read / decode error is reported (only EOF on the block header yields the end marker);
 // every pool buffer taken is released; each decoded entry is stored exactly once, under its key,
 // with the three times it carries and the unpacked message.
-//@ func (c *Cache) readDump$1 [C19]
+//@ func (c *Cache) readDump$readBlock [C19]
 //@   log readBlock
 //@   wraparound
 //@   requires c != nil && c.backend != nil && gr != nil && errReadHeaderEOF != nil && allocated(errReadHeaderEOF)
@@ -236,7 +236,7 @@ package cache
 
 // writeBlock: a block is the 8-byte big-endian length of the marshalled block followed by exactly
 // those bytes; a marshal or write error is reported and stops the block.
-//@ func (c *Cache) writeDump$1 [C19]
+//@ func (c *Cache) writeDump$writeBlock [C19]
 //@   log writeBlock
 //@   wraparound
 //@   requires gw != nil && block != nil
